@@ -2,6 +2,8 @@
 //   head  <pfx> <shape> <hexname>   DynamicFactory::create at double  -> OK <rule name> <#points> | REFUSED
 //   rule  <pfx> <shape> <hexname>   the same, full rule (every double printed as its exact rational value)
 //   ruleq <pfx> <shape> <hexname>   DynamicFactory::create at the exact rational type Q, full rule
+//   headt / rulet                   like head / rule, but through DynamicFactory(name).create_throw(rule)
+//                                   (Cubature::UnknownRule -> REFUSED)
 //   refine <shape> <k> <dyrule>     RefineFactoryCore::create(rule, rule_in, k) at Q
 //   tensor <dim> <dyrule>           TensorProductFactoryBase<..>::create(rule, scalar_rule) at Q
 //   sscalar <dyrule>                SimplexScalarFactoryBase<..>::create(rule, scalar_rule) at Q
@@ -49,9 +51,16 @@ template<typename Shape_, typename DT_>
 static void do_create(const std::string& op, const std::string& name, std::ostream& o)
 {
   Cubature::Rule<Shape_, DT_, DT_, Tiny::Vector<DT_, Shape_::dimension>> rule;
-  bool ok = Cubature::DynamicFactory::create(rule, String(name));
+  bool ok = false;
+  if(op == "headt" || op == "rulet")
+  {
+    try { Cubature::DynamicFactory fac{String(name)}; fac.create_throw(rule); ok = true; }
+    catch(const Cubature::UnknownRule&) { ok = false; }
+  }
+  else
+    ok = Cubature::DynamicFactory::create(rule, String(name));
   if(!ok) { o << "REFUSED"; return; }
-  if(op == "head") o << "OK " << rule.get_name() << " " << rule.get_num_points();
+  if(op == "head" || op == "headt") o << "OK " << rule.get_name() << " " << rule.get_num_points();
   else show_rule<Shape_, DT_>(o, rule.get_name(), rule);
 }
 
@@ -128,7 +137,7 @@ static void handle(const verif::Tokens& t, std::ostream& o)
 {
   Cur c(t);
   std::string op = c.str();
-  if(op == "head" || op == "rule" || op == "ruleq")
+  if(op == "head" || op == "rule" || op == "ruleq" || op == "headt" || op == "rulet")
   {
     int pfx = int(c.idx());
     std::string tag = c.str();
